@@ -204,10 +204,11 @@ def asbool(o):
 class S:
     """Symbolic real scalar (immutable)."""
 
-    __slots__ = ("t", "c", "d")
+    __slots__ = ("t", "c", "d", "inf")
     __array_priority__ = 1000
 
-    def __init__(self, t=None, c=None, d=None):
+    def __init__(self, t=None, c=None, d=None, inf=0):
+        self.inf = inf  # +1 / -1: an infinite float constant (only min/max treat it specially; anything else is undefined)
         # d: definedness condition (z3 Bool; None = always a finite real).  A float run yields
         # a finite number for this value iff d holds (NaN/inf are "undefined").
         self.d = d
@@ -228,6 +229,8 @@ class S:
         if isinstance(x, S):
             return x
         if _is_num(x):
+            if isinstance(x, (float, np.floating)) and math.isinf(x):
+                return S(z3.RealVal(0), d=z3.BoolVal(False), inf=1 if x > 0 else -1)
             return S(c=frac_of(x))
         if isinstance(x, np.ndarray) and x.ndim == 0:
             return S.lift(x.item())
@@ -453,12 +456,24 @@ def _log(a):
 
 
 def _min(a, b):
+    if a.inf or b.inf:
+        if a.inf > 0:
+            return b
+        if b.inf > 0:
+            return a
+        return a if a.inf < 0 else b
     if a.c is not None and b.c is not None:
         return a if a.c <= b.c else b
     return S(z3.If(a.t <= b.t, a.t, b.t), d=_conj(a.d, b.d))
 
 
 def _max(a, b):
+    if a.inf or b.inf:
+        if a.inf < 0:
+            return b
+        if b.inf < 0:
+            return a
+        return a if a.inf > 0 else b
     if a.c is not None and b.c is not None:
         return a if a.c >= b.c else b
     return S(z3.If(a.t >= b.t, a.t, b.t), d=_conj(a.d, b.d))
